@@ -572,7 +572,9 @@ class Fn:
             b = c.get("bytes")
             if c.get("static"):
                 return ("const", "static", c["static"])
-            return ("const", "bytes", bytes(b) if b is not None else None)
+            if b is None or c.get("has_ptrs"):
+                return ("const", "opaque", c.get("ty"))
+            return ("const", "bytes", bytes(b))
         if k == "zst":
             return ("const", "zst", c.get("ty"))
         if k == "unevaluated":
